@@ -1,5 +1,5 @@
 (* C13 — A component split yields complementary sub-models that reproduce the full model. *)
-From GX Require Import Base Expr Topo Ode Target Sem Codegen Load LoadSound Valid Theory.
+From GX Require Import Base Expr Topo Ode Target Sem Codegen Load LoadSound Valid MirrorValid Theory.
 Open Scope string_scope.
 Open Scope list_scope.
 
@@ -51,3 +51,29 @@ Theorem C13_validated_missing_values_writes_the_requested_names :
            exists v, nth_error out i = Some v /\ Sem N o ss inp with_dt n v.
 Proof. exact @named_sound. Qed.
 Print Assumptions C13_validated_missing_values_writes_the_requested_names.
+
+(* the mirror of missing_values(values) is a verified compiler too: for every well-formed model and every
+   request (distinct names of the model, distinct slots below the number of requested names) the generated
+   function - requested states and parameters first, then assignments until every requested name has been
+   written, a requested parameter unpacked even when remove_unused drops it elsewhere - passes the validator
+   and returns in slot i the documented meaning of the name requested for slot i.  The implementation's
+   missing_values is compared with this function statement by statement. *)
+Theorem C13_mirror_missing_values_is_correct_for_every_well_formed_model :
+  forall (T : Type) (N : NumOps T) (o : ode) ru order ss ord req tbl f (inp : inputs T),
+    sorted_states o = Some ss -> sorted_names o false = Some ord -> MirrorValid.wf_gen o ss false = true ->
+    NoDup (keys req) ->
+    (forall x i, lookup x req = Some i -> i < length req) ->
+    (forall x y i, lookup x req = Some i -> lookup y req = Some i -> x = y) ->
+    (forall x, In x (keys req) -> In x (all_names o)) ->
+    length tbl = length req ->
+    (forall i x, nth_error tbl i = Some x -> lookup x req = Some i) ->
+    gen_missing_values o ru req order = Some f ->
+    sizes_ok o ss inp ->
+    valid_named o ss inp false tbl f = true
+    /\ exists out,
+        exec N f false inp = Some out
+        /\ length out = length tbl
+        /\ forall i n, nth_error tbl i = Some n ->
+             exists v, nth_error out i = Some v /\ Sem N o ss inp false n v.
+Proof. exact @MirrorValid.mirror_missing_correct. Qed.
+Print Assumptions C13_mirror_missing_values_is_correct_for_every_well_formed_model.
